@@ -357,45 +357,47 @@ fn walk(abs: &Path, rel: &str, m: &Meta, out: &mut Snapshot) {
     }
 }
 
-/// Differences between two snapshots, ignoring directory atimes/mtimes/sizes
-/// (the kernel owns those) and, optionally, file atimes.
-pub fn diff(a: &Snapshot, b: &Snapshot, ignore_file_atime: bool) -> Vec<String> {
+/// Differences between two snapshots as (kind, relative path), ignoring
+/// directory times/sizes (the kernel owns those) and, optionally, file atimes.
+/// kinds: "-", "+", "type", "content", "mode", "mtime", "atime", "inode".
+pub fn diff(a: &Snapshot, b: &Snapshot, ignore_file_atime: bool) -> Vec<(String, String)> {
     let mut out = Vec::new();
+    let mut push = |k: &str, rel: &str| out.push((k.to_string(), rel.to_string()));
     for (k, na) in a {
         match b.get(k) {
-            None => out.push(format!("- {}", k)),
+            None => push("-", k),
             Some(nb) => {
                 if na.kind != nb.kind {
-                    out.push(format!("type {} {}->{}", k, na.kind, nb.kind));
+                    push("type", k);
                     continue;
                 }
                 if na.kind == 'd' {
                     if na.meta.perm() != nb.meta.perm() {
-                        out.push(format!("mode {}", k));
+                        push("mode", k);
                     }
                     continue;
                 }
                 if na.content != nb.content {
-                    out.push(format!("content {}", k));
+                    push("content", k);
                 }
                 if na.meta.perm() != nb.meta.perm() {
-                    out.push(format!("mode {} {:o}->{:o}", k, na.meta.perm(), nb.meta.perm()));
+                    push("mode", k);
                 }
                 if na.meta.mtime != nb.meta.mtime {
-                    out.push(format!("mtime {}", k));
+                    push("mtime", k);
                 }
                 if !ignore_file_atime && na.meta.atime != nb.meta.atime {
-                    out.push(format!("atime {}", k));
+                    push("atime", k);
                 }
                 if na.meta.ino != nb.meta.ino {
-                    out.push(format!("inode {}", k));
+                    push("inode", k);
                 }
             }
         }
     }
     for k in b.keys() {
         if !a.contains_key(k) {
-            out.push(format!("+ {}", k));
+            push("+", k);
         }
     }
     out
